@@ -272,6 +272,11 @@ func runBubble(tp *core.Tape, e *core.Env, sc *WScenario, which cyc.Which, res *
 			evi++
 			lastChange = t
 		}
+		for len(w.dynEvents) > 0 && !w.dynEvents[0].At.After(t) {
+			w.applyEvent(w.dynEvents[0].Ev)
+			w.dynEvents = w.dynEvents[1:]
+			lastChange = t
+		}
 		w.ReleaseProbes()
 		w.ReleaseHeld(t, false)
 		w.RunScrapes(t)
@@ -409,6 +414,48 @@ func (w *World) maybeFault(tr *cyc.CycleTrace) bool {
 	}
 	now := time.Now()
 	dur := time.Duration(5+tp.Choose("fault_window_s", 40)) * time.Second
+	if k == "prom_api_down" && w.SC.LongAPIDown {
+		// prefer a pod that was given targets in this cycle (an empty shard being refilled)
+		var given []*Pod
+		for _, r := range tr.Replicas {
+			for _, s := range r.Shards {
+				if len(s.Post) > 0 {
+					for _, x := range running {
+						if x.Host == s.ID || x.Name == s.ID {
+							given = append(given, x)
+						}
+					}
+				}
+			}
+		}
+		dur += w.SC.Opt.MaxIdleTime
+		if len(given) > 0 && tp.Bool("prefer_given_pod", 3, 4) {
+			p = given[tp.Choose("fault_given_pod", len(given))]
+			// ... and whose targets all leave discovery again while the API is still down
+			if tp.Bool("given_targets_leave", 2, 3) {
+				at := now.Add(time.Duration(10+tp.Choose("leave_after_s", int(dur/time.Second)-10)) * time.Second)
+				for _, r := range tr.Replicas {
+					for _, s := range r.Shards {
+						if s.ID != p.Name && s.ID != p.Host {
+							continue
+						}
+						var hs []uint64
+						for h := range s.Post {
+							hs = append(hs, h)
+						}
+						sort.Slice(hs, func(a, b int) bool { return hs[a] < hs[b] })
+						for _, h := range hs {
+							for i, t := range w.SC.Targets {
+								if t.Addr == w.addrOf[h] {
+									w.dynEvents = append(w.dynEvents, dynEvent{at, WEvent{Kind: "remove_target", Idx: i}})
+								}
+							}
+						}
+					}
+				}
+			}
+		}
+	}
 	switch k {
 	case "post_lost_before":
 		w.loseNextPost[p.Host] = "before"
